@@ -17,51 +17,51 @@ import (
 )
 
 type RawClause struct {
-	Kind  string // requires ensures invariant decreases assigns lemma assume
-	Label string
-	Text  string   // expression text (lowered later)
-	Props []string // property tags
-	Loop  int      // for invariant/decreases/assigns-in-loop: loop ordinal; -1 otherwise
-	Line  int
-	Id    int // index in the generated clause function
+	Kind   string // requires ensures invariant decreases assigns lemma assume
+	Label  string
+	Text   string   // expression text (lowered later)
+	Props  []string // property tags
+	Loop   int      // for invariant/decreases/assigns-in-loop: loop ordinal; -1 otherwise
+	Line   int
+	Id     int    // index in the generated clause function
 	Callee string // for callsite clauses: name of the called function
 }
 
 type RawContract struct {
-	Pkg      string // package dir ("." etc)
-	File     string
-	Line     int
-	Header   string // "func (d *decoder) fill() (err error)"
-	Recv     string // receiver type text, "" for functions
-	Name     string
-	Params   string // "d *decoder, p []byte" (receiver first)
-	Results  string // "err error" (named)
-	Locals   string // "j int, dsize int"
-	Clauses  []*RawClause
-	Props    []string
-	Trusted  bool     // body not verified; contract assumed at call sites
-	Nullable []string // pointer params that may be nil
-	Inline   bool
-	Pure     bool // ensures result == f(args): function has no effects (checked via empty assigns)
-	Split    string
-	GenName  string // name of generated clause function
-	Reveal   []string
+	Pkg       string // package dir ("." etc)
+	File      string
+	Line      int
+	Header    string // "func (d *decoder) fill() (err error)"
+	Recv      string // receiver type text, "" for functions
+	Name      string
+	Params    string // "d *decoder, p []byte" (receiver first)
+	Results   string // "err error" (named)
+	Locals    string // "j int, dsize int"
+	Clauses   []*RawClause
+	Props     []string
+	Trusted   bool     // body not verified; contract assumed at call sites
+	Nullable  []string // pointer params that may be nil
+	Inline    bool
+	Pure      bool // ensures result == f(args): function has no effects (checked via empty assigns)
+	Split     string
+	GenName   string // name of generated clause function
+	Reveal    []string
 	NoSubtype bool
-	Slow     map[string]int
+	Slow      map[string]int
 }
 
 type RawSpec struct {
-	Kind    string // pred | spec
-	Name    string
-	Params  string
-	Result  string
-	Body    string
-	Pure    bool // heap independent -> SMT define-fun(-rec)
-	Rec     bool
-	Line    int
-	File    string
-	Opaque  bool
-	Trigger string
+	Kind      string // pred | spec
+	Name      string
+	Params    string
+	Result    string
+	Body      string
+	Pure      bool // heap independent -> SMT define-fun(-rec)
+	Rec       bool
+	Line      int
+	File      string
+	Opaque    bool
+	Trigger   string
 	Generated bool
 }
 
@@ -83,16 +83,16 @@ type ContractFile struct {
 }
 
 type RawLemma struct {
-	Name   string
-	Params string
-	Hyps   []string
-	Concl  string
-	Props  []string
-	Line   int
-	File   string
-	GenName string
-	Reveal []string
-	TimeoutS int
+	Name      string
+	Params    string
+	Hyps      []string
+	Concl     string
+	Props     []string
+	Line      int
+	File      string
+	GenName   string
+	Reveal    []string
+	TimeoutS  int
 	Induction []string // "induction base step": proved by the induction principle from two other lemmas
 }
 
